@@ -257,6 +257,17 @@ Definition integrate_objs (fx : bool) (tm : tmap) (objs : list sobj) (tidx : lis
       end)
   end.
 
+(* executable form of the well-formedness hypothesis of the theorems (SpinProofs.wf_objs):
+   tables duplicate-free, blocks as long as the object has indices, no empty object *)
+Fixpoint nodup_b (l : list block) : bool :=
+  match l with [] => true | b :: r => negb (bmem b r) && nodup_b r end.
+Definition wf_objs_b (objs : list sobj) : bool :=
+  forallb (fun o => match snd o with
+                    | Some tb => nodup_b tb
+                                 && forallb (fun b => Nat.eqb (List.length b) (List.length (fst o))) tb
+                                 && negb (match fst o with [] => true | _ => false end)
+                    | None => true end) objs.
+
 (* ---------- on the syntax of Core/Expr.v ---------- *)
 Fixpoint sobjs_of (it : itable) (atoms : list atom) : res (list sobj) :=
   match atoms with
